@@ -814,6 +814,29 @@ func (Wide) Quote() byte                                  { return '"' }
 func (Wide) TrailingComma() bool                          { return true }
 func (Wide) Trim() bool                                   { return false }
 
+// Vast puts a long run of white space between any two tokens: 33, 64, 257 or 1025 characters (blanks with a tab,
+// a line break and a carriage return somewhere in them), so that every tag and print is longer than any buffer
+// or look-ahead window a tokeniser might use.
+type Vast struct{}
+
+func (Vast) WS(prev, next string, mayBeEmpty bool) string {
+	n := 0
+	for _, c := range []byte(prev + "|" + next) {
+		n = n*31 + int(c)
+	}
+	if n < 0 {
+		n = -n
+	}
+	size := []int{33, 64, 257, 33, 1025, 40}[n%6]
+	b := []byte(strings.Repeat(" ", size))
+	b[size/2] = "\t\n\r "[n%4]
+	b[size-1] = " \t"[n%2]
+	return string(b)
+}
+func (Vast) Quote() byte         { return '\'' }
+func (Vast) TrailingComma() bool { return false }
+func (Vast) Trim() bool          { return false }
+
 // FullParen wraps every compound sub-expression in a group, so that the spelled
 // text does not depend on operator precedence.
 func FullParen(e Expr) Expr {
